@@ -60,6 +60,21 @@ Corruptions(l) ==
                  \* more sectors than the FAT sectors of the file can describe
                  (Len(l.fatsecs) * FatPer - l.nsec + 2) * SLen}}
   \cup {[f |-> "flen_abs", k |-> "", i |-> 0, v |-> v] : v \in {0, 7, 511, 512, 513, SLen, SLen + 1, 2 * SLen - 1}}
+  \* a DIFAT chain laid through the LAST word of existing sectors (nothing else links DIFAT sectors, and no
+  \* table validates those words): shapes 1 a->a, 2 a->b->a, 3 a->b->b (rho), 4 a->b->c->b (rho), 5 a->b->c->END,
+  \* 6 a->beyond the file, over the last three sectors of the file
+  \cup (IF l.nsec >= 3 THEN {[f |-> "difat_chain", k |-> "", i |-> 0, v |-> v] : v \in 1..6} ELSE {})
+
+LE32(v) == IF v = ENDC THEN <<254, 255, 255, 255>> ELSE <<v % 256, (v \div 256) % 256, (v \div 65536) % 256, 0>>
+LastWord(sec, next) == [off |-> (sec + 2) * SLen - 4, bytes |-> LE32(next)]
+DifatChain(l, shape) ==
+  LET a == l.nsec - 1  b == l.nsec - 2  c == l.nsec - 3 IN
+  CASE shape = 1 -> <<LastWord(a, a)>>
+    [] shape = 2 -> <<LastWord(a, b), LastWord(b, a)>>
+    [] shape = 3 -> <<LastWord(a, b), LastWord(b, b)>>
+    [] shape = 4 -> <<LastWord(a, b), LastWord(b, c), LastWord(c, b)>>
+    [] shape = 5 -> <<LastWord(a, b), LastWord(b, c), LastWord(c, ENDC)>>
+    [] shape = 6 -> <<LastWord(a, l.nsec + 5)>>
 
 Apply(l, c) ==
   CASE c.f = "hdr"        -> SetHdr(l, c.k, c.v)
@@ -73,6 +88,7 @@ Apply(l, c) ==
                              ELSE [l EXCEPT !.slots[c.i] = (c.k :> c.v) @@ @]
     [] c.f = "flen_delta" -> [flen_delta |-> c.v] @@ l
     [] c.f = "flen_abs"   -> [flen_abs |-> c.v] @@ l
+    [] c.f = "difat_chain" -> [patch |-> DifatChain(l, c.v)] @@ SetHdr(l, "first_difat", l.nsec - 1)
 
 (* which unvalidated field meets which walk (C11's cross product) *)
 Site(l, c) ==
